@@ -34,7 +34,7 @@ fn any_proof_elem<const M: usize>(t: &RefTree<M>) -> Hash {
     }
 }
 
-fn sound_body<const M: usize, const K: usize>(last: bool) {
+fn sound_body<const M: usize, const K: usize>(last: bool) -> bool {
     // oracle calls: M leaf hashes + (M-1 .. M+2) inner nodes + 1 + K in the verifier
     init_oracle(4, 2 * M + 3 + K);
     // honest side
@@ -61,8 +61,6 @@ fn sound_body<const M: usize, const K: usize>(last: bool) {
         DT::check_proof(&cand, index, &root, &proof)
     };
 
-    vcover!(accepted, "some proof is accepted");
-    vcover!(!accepted, "some proof is rejected");
     if accepted {
         vcheck!(K == t.height, "accepted a proof whose length is not the tree height");
         vcheck!(index < (1usize << t.height), "accepted an index outside the tree width");
@@ -74,43 +72,66 @@ fn sound_body<const M: usize, const K: usize>(last: bool) {
         }
     }
     std::mem::forget(proof);
+    accepted
 }
 
+/// Height of the tree `MerkleTree::new` builds for `m` leaves.
+const fn height_of(m: usize) -> usize {
+    let mut h = 0;
+    while (1usize << h) < m {
+        h += 1;
+    }
+    h
+}
+
+/// proof length == tree height: acceptance is reachable and must be witnessed
+fn acc(accepted: bool) {
+    vcover!(accepted, "some proof is accepted");
+    vcover!(!accepted, "some proof is rejected");
+}
+/// a proof of any other length can never be accepted: only rejection is witnessed
+fn rej(accepted: bool) {
+    vcover!(!accepted, "some proof is rejected");
+}
 macro_rules! sound {
-    ($name:ident, $m:literal, $k:literal, $last:literal) => {
+    ($name:ident, $m:literal, $k:literal, $last:literal, $cov:ident) => {
         #[cfg_attr(kani, kani::proof)]
         #[cfg_attr(kani, kani::stub(crate::crypto::hash::hash_all, super::kani_merkle::hash_all_oracle))]
         #[cfg_attr(kani, kani::unwind(34))]
         #[cfg_attr(verif_replay, test)]
         fn $name() {
-            sound_body::<$m, $k>($last)
+            $cov(sound_body::<$m, $k>($last));
         }
     };
 }
 
-sound!(c15_sound_d_m1_k0, 1, 0, false);
-sound!(c15_sound_d_m1_k1, 1, 1, false);
-sound!(c15_sound_d_m2_k0, 2, 0, false);
-sound!(c15_sound_d_m2_k1, 2, 1, false);
-sound!(c15_sound_d_m2_k2, 2, 2, false);
-sound!(c15_sound_d_m3_k1, 3, 1, false);
-sound!(c15_sound_d_m3_k2, 3, 2, false);
-sound!(c15_sound_d_m3_k3, 3, 3, false);
-sound!(c15_sound_d_m4_k2, 4, 2, false);
-sound!(c15_sound_d_m5_k2, 5, 2, false);
-sound!(c15_sound_d_m5_k3, 5, 3, false);
-sound!(c15_sound_d_m8_k3, 8, 3, false);
-sound!(c15_sound_d_m8_k4, 8, 4, false);
-sound!(c15_sound_l_m1_k0, 1, 0, true);
-sound!(c15_sound_l_m1_k1, 1, 1, true);
-sound!(c15_sound_l_m2_k1, 2, 1, true);
-sound!(c15_sound_l_m2_k2, 2, 2, true);
-sound!(c15_sound_l_m3_k1, 3, 1, true);
-sound!(c15_sound_l_m3_k2, 3, 2, true);
-sound!(c15_sound_l_m3_k3, 3, 3, true);
-sound!(c15_sound_l_m4_k2, 4, 2, true);
-sound!(c15_sound_l_m5_k3, 5, 3, true);
-sound!(c15_sound_l_m8_k3, 8, 3, true);
+sound!(c15_sound_d_m1_k0, 1, 0, false, acc);
+sound!(c15_sound_d_m1_k1, 1, 1, false, rej);
+sound!(c15_sound_d_m2_k0, 2, 0, false, rej);
+sound!(c15_sound_d_m2_k1, 2, 1, false, acc);
+sound!(c15_sound_d_m2_k2, 2, 2, false, rej);
+sound!(c15_sound_d_m3_k1, 3, 1, false, rej);
+sound!(c15_sound_d_m3_k2, 3, 2, false, acc);
+sound!(c15_sound_d_m3_k3, 3, 3, false, rej);
+sound!(c15_sound_d_m4_k2, 4, 2, false, acc);
+sound!(c15_sound_d_m5_k2, 5, 2, false, rej);
+sound!(c15_sound_d_m5_k3, 5, 3, false, acc);
+sound!(c15_sound_d_m8_k3, 8, 3, false, acc);
+sound!(c15_sound_d_m8_k4, 8, 4, false, rej);
+sound!(c15_sound_l_m1_k0, 1, 0, true, acc);
+sound!(c15_sound_l_m1_k1, 1, 1, true, rej);
+sound!(c15_sound_l_m2_k1, 2, 1, true, acc);
+sound!(c15_sound_l_m2_k2, 2, 2, true, rej);
+sound!(c15_sound_l_m3_k1, 3, 1, true, rej);
+sound!(c15_sound_l_m3_k2, 3, 2, true, acc);
+sound!(c15_sound_l_m3_k3, 3, 3, true, rej);
+sound!(c15_sound_l_m4_k2, 4, 2, true, acc);
+sound!(c15_sound_l_m5_k3, 5, 3, true, acc);
+sound!(c15_sound_l_m8_k3, 8, 3, true, acc);
+sound!(c15_sound_l_m6_k3, 6, 3, true, acc);
+sound!(c15_sound_l_m7_k3, 7, 3, true, acc);
+sound!(c15_sound_d_m6_k3, 6, 3, false, acc);
+sound!(c15_sound_d_m7_k3, 7, 3, false, acc);
 
 /// Completeness on the real tree object: every created proof verifies, the last-leaf
 /// variant exactly for the last leaf, and the real root has the documented shape.
